@@ -284,41 +284,50 @@ func TestGoldenRequests(t *testing.T) {
 		},
 	}
 	for _, c := range cases {
-		want := unhex(t, c.hex)
-		if int(binary.BigEndian.Uint32(want)) != len(want)-4 {
-			t.Errorf("%s: golden frame has a wrong size prefix (%d vs %d bytes)", c.name, binary.BigEndian.Uint32(want), len(want)-4)
-			continue
-		}
-		got, err := EncodeRequest(c.h, c.body)
-		if err != nil {
-			t.Errorf("%s: encode: %v", c.name, err)
-			continue
-		}
-		if !bytes.Equal(got, want) {
-			t.Errorf("%s: encode:\n got  %x\n want %x", c.name, got, want)
-		}
-		h, _, body, err := DecodeRequest(want[4:])
-		if err != nil {
-			t.Errorf("%s: decode: %v", c.name, err)
-			continue
-		}
-		if !reflect.DeepEqual(h, c.h) {
-			t.Errorf("%s: header: got %+v want %+v", c.name, h, c.h)
-		}
-		if !reflect.DeepEqual(body, c.body) {
-			t.Errorf("%s: body:\n got  %v\n want %v", c.name, body, c.body)
-		}
+		checkGoldenRequest(t, c)
 	}
 }
 
+// checkGoldenRequest checks that the body encodes to exactly the golden bytes
+// and that the golden bytes strictly decode to exactly the header and body.
+func checkGoldenRequest(t *testing.T, c goldenReq) {
+	t.Helper()
+	want := unhex(t, c.hex)
+	if int(binary.BigEndian.Uint32(want)) != len(want)-4 {
+		t.Errorf("%s: golden frame has a wrong size prefix (%d vs %d bytes)", c.name, binary.BigEndian.Uint32(want), len(want)-4)
+		return
+	}
+	got, err := EncodeRequest(c.h, c.body)
+	if err != nil {
+		t.Errorf("%s: encode: %v", c.name, err)
+		return
+	}
+	if !bytes.Equal(got, want) {
+		t.Errorf("%s: encode:\n got  %x\n want %x", c.name, got, want)
+	}
+	h, _, body, err := DecodeRequest(want[4:])
+	if err != nil {
+		t.Errorf("%s: decode: %v", c.name, err)
+		return
+	}
+	if !reflect.DeepEqual(h, c.h) {
+		t.Errorf("%s: header: got %+v want %+v", c.name, h, c.h)
+	}
+	if !reflect.DeepEqual(body, c.body) {
+		t.Errorf("%s: body:\n got  %v\n want %v", c.name, body, c.body)
+	}
+}
+
+type goldenRes struct {
+	name     string
+	key, ver int16
+	corr     int32
+	hex      string
+	body     Msg
+}
+
 func TestGoldenResponses(t *testing.T) {
-	cases := []struct {
-		name     string
-		key, ver int16
-		corr     int32
-		hex      string
-		body     Msg
-	}{
+	cases := []goldenRes{
 		{
 			name: "ApiVersions v0", key: 18, ver: 0, corr: 42,
 			hex: `00000016 0000002a
@@ -473,29 +482,34 @@ func TestGoldenResponses(t *testing.T) {
 		},
 	}
 	for _, c := range cases {
-		want := unhex(t, c.hex)
-		if int(binary.BigEndian.Uint32(want)) != len(want)-4 {
-			t.Errorf("%s: golden frame has a wrong size prefix (%#x vs %#x bytes)", c.name, binary.BigEndian.Uint32(want), len(want)-4)
-			continue
-		}
-		got, lens, err := EncodeResponse(c.key, c.ver, c.corr, c.body, nil)
-		if err != nil {
-			t.Errorf("%s: encode: %v", c.name, err)
-			continue
-		}
-		if !bytes.Equal(got, want) {
-			t.Errorf("%s: encode:\n got  %x\n want %x", c.name, got, want)
-			continue
-		}
-		checkLenFields(t, c.name, got, lens, c.body)
-		corr, body, err := DecodeResponse(c.key, c.ver, want[4:])
-		if err != nil {
-			t.Errorf("%s: decode: %v", c.name, err)
-			continue
-		}
-		if corr != c.corr || !reflect.DeepEqual(body, c.body) {
-			t.Errorf("%s: body:\n got  %v\n want %v", c.name, body, c.body)
-		}
+		checkGoldenResponse(t, c)
+	}
+}
+
+func checkGoldenResponse(t *testing.T, c goldenRes) {
+	t.Helper()
+	want := unhex(t, c.hex)
+	if int(binary.BigEndian.Uint32(want)) != len(want)-4 {
+		t.Errorf("%s: golden frame has a wrong size prefix (%#x vs %#x bytes)", c.name, binary.BigEndian.Uint32(want), len(want)-4)
+		return
+	}
+	got, lens, err := EncodeResponse(c.key, c.ver, c.corr, c.body, nil)
+	if err != nil {
+		t.Errorf("%s: encode: %v", c.name, err)
+		return
+	}
+	if !bytes.Equal(got, want) {
+		t.Errorf("%s: encode:\n got  %x\n want %x", c.name, got, want)
+		return
+	}
+	checkLenFields(t, c.name, got, lens, c.body)
+	corr, body, err := DecodeResponse(c.key, c.ver, want[4:])
+	if err != nil {
+		t.Errorf("%s: decode: %v", c.name, err)
+		return
+	}
+	if corr != c.corr || !reflect.DeepEqual(body, c.body) {
+		t.Errorf("%s: body:\n got  %v\n want %v", c.name, body, c.body)
 	}
 }
 
